@@ -3034,8 +3034,11 @@ class FST:
 
           The reparse that is triggered is of at least a statement level node or a statement block header, and can be
           multiple statements if the location spans those or even statements outside of the location if the reparse
-          affects things like `elif`. `FST` nodes in the region of the put or even outside of it can become invalid. The
-          only `FST` node guaranteed not to change is the root node (identity, the `AST` it holds can change).
+          affects things like `elif`. If the change does not leave exactly one statement in place of the one it is in
+          (it is split, commented out, deleted, moved to another block by indentation or merged with what follows) or it
+          does not parse on its own, then the whole source is reparsed. `FST` nodes in the region of the put or even
+          outside of it can become invalid. The only `FST` node guaranteed not to change is the root node (identity, the
+          `AST` it holds can change).
 
           When putting source raw by location like this there are no automatic modifications made to the source or
           destination. No parenthesization, prefixes or suffixes or indentation, the source is just put and parsed so you
